@@ -96,12 +96,33 @@ func init() {
 
 var fourccs = []string{"free", "moov", "moof", "mdat", "trak", "traf", "stsd", "trun", "senc", "saio", "saiz", "sidx", "styp", "ftyp", "emsg", "uuid", "tfhd", "mfra", "tfra", "stts", "zzzz", "meta", "avc1", "mp4a", "sgpd", "sbgp", "stsz", "ctts", "elst", "hdlr", "mvhd", "tkhd", "mdhd", "esds", "avcC", "hvcC", "pssh", "tenc", "sinf", "schm"}
 
+// Uniform draws an index in [0,n) that is (nearly) uniform. rapid's own integer generators (and SampledFrom on top
+// of them) favour small values and the bounds, which starves the tail of a long list; here two 64-bit draws are passed
+// through a fixed mixing function first (two, because about one biased draw in twenty is 0 or 1). Deterministic, and
+// still shrinkable: both draws shrink towards 0, which maps to index 0 (put the simplest entry first).
+func Uniform(t *rapid.T, label string, n int) int {
+	v := mix64(rapid.Uint64().Draw(t, label)) + rapid.Uint64().Draw(t, label+"'")
+	return int(mix64(v) % uint64(n))
+}
+
+func mix64(v uint64) uint64 {
+	v ^= v >> 30
+	v *= 0xbf58476d1ce4e5b9
+	v ^= v >> 27
+	v *= 0x94d049bb133111eb
+	v ^= v >> 31
+	return v
+}
+
+// genOps: the operations Gen draws from (repetition = weight; drawn uniformly, see Uniform).
+var genOps = []string{"bytes", "bytes", "payload", "payload", "size", "size", "count", "count", "truncate", "drop", "drop", "dup", "swap", "rename", "insert", "insert", "zero", "verflags", "verflags", "wrap", "largesize", "emptytable"}
+
 // Gen draws a list of 1..max mutations.
 func Gen(t *rapid.T, max int) []Mut {
 	n := rapid.IntRange(1, max).Draw(t, "nmut")
 	out := make([]Mut, 0, n)
 	for i := 0; i < n; i++ {
-		m := Mut{Op: rapid.SampledFrom([]string{"bytes", "bytes", "payload", "payload", "size", "size", "count", "count", "truncate", "drop", "drop", "dup", "swap", "rename", "insert", "insert", "zero", "verflags", "verflags", "wrap", "largesize", "emptytable"}).Draw(t, "op")}
+		m := Mut{Op: genOps[Uniform(t, "op", len(genOps))]}
 		m.Box = rapid.IntRange(0, 400).Draw(t, "box")
 		switch m.Op {
 		case "bytes": // overwrite 1..8 bytes at an absolute offset (modulo length)
@@ -121,9 +142,9 @@ func Gen(t *rapid.T, max int) []Mut {
 		case "truncate":
 			m.Off = rapid.IntRange(0, 1<<20).Draw(t, "off")
 		case "rename":
-			m.Str = rapid.SampledFrom(fourccs).Draw(t, "fourcc")
+			m.Str = fourccs[Uniform(t, "fourcc", len(fourccs))]
 		case "insert":
-			m.Str = rapid.SampledFrom(insertNames).Draw(t, "what")
+			m.Str = insertNames[Uniform(t, "what", len(insertNames))]
 			m.N = rapid.IntRange(0, 2).Draw(t, "where") // 0 before, 1 after, 2 as first child
 		case "zero":
 			m.Off = rapid.IntRange(0, 200).Draw(t, "off")
@@ -190,6 +211,8 @@ func Apply(seed []byte, muts []Mut) []byte {
 			b = flat[m.Box%len(flat)]
 		}
 		switch m.Op {
+		case "nest", "repeat", "grow": // scale mutations, see nest.go
+			data = applyShape(data, tree, b, m)
 		case "cutto": // keep only the bytes from the start of the chosen box (box-level entry points)
 			if b != nil {
 				data = data[b.Start:]
